@@ -205,6 +205,10 @@ def main(argv):
         m = extract.ensure_facts(list(extract.CONFIGS) + [extract.FIXTURE_CFG])
         for c, x in sorted(m.items()):
             print("setup: config %-10s ok=%s cached=%s wall=%ss" % (c, x["ok"], x.get("cached"), x.get("wall_s")))
+        from . import witness
+        for c in ("default", "optimal", "stateless", "full", "arkzkey"):
+            r = witness.run(c)
+            print("setup: witness %-10s ok=%s wall=%ss" % (c, r["ok"], r["wall_s"]))
         return 0
     if pid == "all":
         rc = 0
